@@ -9,7 +9,7 @@ from astropy.io import fits
 from hypothesis import strategies as st
 
 from AegeanTools import BANE
-from vlib.core import Res
+from vlib.core import Res, workdir
 
 PROP = "C06"
 SHARDS = {"quick": 12, "thorough": 16}
@@ -112,7 +112,7 @@ def check_case(c):
     cores = c["cores"]
     stripes = max(1, int(round(c["stripes_mul"] * cores))) if cores > 1 else None
     img, blank = make_image(c)
-    d = tempfile.mkdtemp(prefix="c06_")
+    d = workdir("c06_")
     tags = dict(stripes=bool((stripes or 1) > 1 and cores > 1), mask=c["mask"], kind=c["kind"])
     try:
         path = os.path.join(d, "im.fits")
